@@ -359,6 +359,14 @@ func init() {
 	e = PropEngines["C04"]
 	e.Variants = []string{"sched", "stop", "precond"}
 	PropEngines["C04"] = e
+	PropEngines["C05"] = struct {
+		Engine   string
+		Variants []string
+	}{"stepsim", []string{"stop5", "stop5", "stop5", "timeout"}}
+	PropEngines["C12"] = struct {
+		Engine   string
+		Variants []string
+	}{"stepsim", []string{"log"}}
 }
 
 func stepsim(t *testing.T, tp *simrt.Tape, opts RunOpts) *Outcome {
@@ -368,20 +376,43 @@ func stepsim(t *testing.T, tp *simrt.Tape, opts RunOpts) *Outcome {
 		sc.Variant = "sched"
 	}
 	schedCfg, cfg := drawSchedCfg(tp, true)
+	if sc.Variant == "log" && cfg.PreemptDelayNum > 2 {
+		// this property is about bytes, not about stretched windows: keep simulated time in check
+		cfg.PreemptDelayNum = 2
+		schedCfg.StallPerM = 2
+	}
 	sc.Sched = schedCfg
 	cfg.TraceOps = opts.Trace
-	cfg.MaxFakeTime = 2 * time.Hour
-	cfg.MaxSteps = 400_000
+	cfg.MaxFakeTime = 3 * time.Hour
+	cfg.MaxSteps = 1_500_000
 	g := stepGenOpts{maxSteps: 8, allowRetry: true, allowPre: true, handlers: true}
 	if opts.Thorough {
 		g.maxSteps = 12
 	}
-	sc.Dag = genDag(tp, g)
+	switch sc.Variant {
+	case "stop5", "timeout":
+		g = stepGenOpts{maxSteps: 5, allowRetry: true, allowRepeat: sc.Variant == "stop5", longSteps: true, sigMix: true, handlers: true}
+		if opts.Thorough {
+			g.maxSteps = 7
+		}
+	}
+	if sc.Variant == "log" {
+		sc.Dag = genLogDag(tp, opts.Thorough)
+	} else {
+		sc.Dag = genDag(tp, g)
+	}
 	switch sc.Variant {
 	case "stop":
 		sc.StopAt = 1 + tp.Draw(simrt.SGen, 2500)
 		sc.StopVia = pick(tp, "socket", "sigterm")
 		// a stopped run must be able to stop: cooperative children only here (C05 has the others)
+	case "stop5":
+		sc.StopAt = 1 + tp.Draw(simrt.SGen, 6000)
+		sc.StopVia = pick(tp, "socket", "socket", "sigterm")
+		sc.Dag.MaxCleanUpSec = pick(tp, 1, 2, 5, 20)
+	case "timeout":
+		sc.Dag.TimeoutSec = pick(tp, 1, 2, 5)
+		sc.Dag.MaxCleanUpSec = pick(tp, 1, 5)
 	case "precond":
 		sc.Dag.DagPrecond = 1 + tp.Draw(simrt.SGen, 2)
 	}
@@ -396,6 +427,9 @@ func stepsim(t *testing.T, tp *simrt.Tape, opts RunOpts) *Outcome {
 	var final *model.Status
 	var stopIssuedSeq, stopDoneSeq uint64
 	var cancelSeenSeq uint64
+	var cancelSeenAt time.Duration
+	var statusAtStop map[string]string
+	agentExited := true
 	var stopQ simrt.WaitQ
 	stopReleased := false
 	var mutBefore, mutAfter map[string]string
@@ -410,6 +444,15 @@ func stepsim(t *testing.T, tp *simrt.Tape, opts RunOpts) *Outcome {
 		if cancelSeenSeq == 0 && ar != nil && ar.agt != nil {
 			if s := ar.agt.VerifScheduler(); s != nil && s.VerifCanceled() {
 				cancelSeenSeq = w.Seq() + 1
+				cancelSeenAt = w.Now()
+				if g := ar.agt.VerifGraph(); g != nil {
+					statusAtStop = g.VerifNodeStatuses()
+				}
+				if sc.Variant == "stop5" {
+					// liveness is measured once faults stop: no injected stalls or slow ops after the stop took effect
+					w.Cfg.PreemptDelayNum = 0
+					w.Cfg.LatencyScale = 0
+				}
 				w.Emit("cancel_flag_seen", "", "", 0, nil)
 			}
 		}
@@ -420,6 +463,7 @@ func stepsim(t *testing.T, tp *simrt.Tape, opts RunOpts) *Outcome {
 		dagsched.VerifResetNodeIDs()
 		setupDirs(w)
 		simexec.Register(w, "/sim/bin/simstep", truth.StepProgram)
+		curTruth = truth
 		fsOf(w).PutFile(dagPath(sc.Dag), []byte(sc.YAML), 0o644)
 		if sc.Variant == "dry" {
 			mutBefore = fsOf(w).Dump(dataDir)
@@ -438,26 +482,35 @@ func stepsim(t *testing.T, tp *simrt.Tape, opts RunOpts) *Outcome {
 				if !ar.proc.Alive() {
 					return 0
 				}
-				stopIssuedSeq = w.Emit("stop_issued", via, "", 0, nil)
-				if via == "socket" {
-					wf := &dag.DAG{Location: dagPath(sc.Dag)}
-					cli := client.New(nil, "", "", logger.Default)
-					if err := cli.Stop(wf); err != nil {
-						w.Emit("stop_failed", err.Error(), "", 0, nil)
-						stopIssuedSeq = 0
+				// like an operator who presses stop until it is acknowledged
+				for try := 0; ; try++ {
+					if !ar.proc.Alive() {
+						return 0
+					}
+					seq := w.Emit("stop_issued", via, "", int64(try), nil)
+					var err error
+					if via == "socket" {
+						wf := &dag.DAG{Location: dagPath(sc.Dag)}
+						cli := client.New(nil, "", "", logger.Default)
+						err = cli.Stop(wf)
+					} else {
+						err = simsignal.Deliver(ar.proc, syscall.SIGTERM)
+					}
+					if err == nil {
+						stopIssuedSeq = seq
+						break
+					}
+					w.Emit("stop_failed", err.Error(), "", 0, nil)
+					if try > 200 {
 						return 1
 					}
-				} else {
-					if err := simsignal.Deliver(ar.proc, syscall.SIGTERM); err != nil {
-						stopIssuedSeq = 0
-						return 1
-					}
+					simrt.Sleep(50 * time.Millisecond)
 				}
 				stopDoneSeq = w.Emit("stop_accepted", via, "", 0, nil)
 				return 0
 			})
 		}
-		simexec.WaitProc(ar.proc)
+		agentExited = waitProcTimeout(ar.proc, 90*time.Minute)
 		// let orphans finish (there should be none in a run that ended by itself)
 		simrt.Sleep(50 * time.Millisecond)
 		final, _ = persistedStatus(w, ar.reqID)
@@ -474,9 +527,26 @@ func stepsim(t *testing.T, tp *simrt.Tape, opts RunOpts) *Outcome {
 	}
 	truth.Finalize(res.Events)
 	ctx := &stepCheck{sc: sc, ar: ar, truth: truth, final: final, res: res, out: out, prop: opts.Prop,
-		stopIssuedSeq: stopIssuedSeq, stopDoneSeq: stopDoneSeq, cancelSeenSeq: cancelSeenSeq, mutBefore: mutBefore, mutAfter: mutAfter}
+		stopIssuedSeq: stopIssuedSeq, stopDoneSeq: stopDoneSeq, cancelSeenSeq: cancelSeenSeq, cancelSeenAt: cancelSeenAt, agentExited: agentExited, statusAtStop: statusAtStop, mutBefore: mutBefore, mutAfter: mutAfter}
 	ctx.check()
 	return out
+}
+
+func waitProcTimeout(p *simrt.Proc, d time.Duration) bool {
+	t := time.NewTimer(d)
+	simrt.Yield()
+	select {
+	case <-p.DeadCh:
+		simrt.Woke()
+		t.Stop()
+		return true
+	case <-t.C:
+		simrt.Woke()
+		return false
+	case <-simrt.Dead():
+		simrt.Die()
+	}
+	return false
 }
 
 func firstNonEmpty(a, b string) string {
@@ -513,6 +583,9 @@ type stepCheck struct {
 	stopIssuedSeq uint64
 	stopDoneSeq   uint64
 	cancelSeenSeq uint64
+	cancelSeenAt  time.Duration
+	agentExited   bool
+	statusAtStop  map[string]string
 	mutBefore     map[string]string
 	mutAfter      map[string]string
 }
@@ -531,7 +604,15 @@ func nodeLabel(n *model.Node) string { return n.Status.String() }
 func (c *stepCheck) check() {
 	d := c.sc.Dag
 	stopped := c.stopIssuedSeq != 0 || c.cancelSeenSeq != 0
-	hung := c.res.Aborted == "faketime" || c.res.Aborted == "steps"
+	hung := c.res.Aborted == "faketime" || c.res.Aborted == "steps" || !c.agentExited
+	if c.sc.Variant == "stop5" || c.sc.Variant == "timeout" {
+		c.checkStop(hung)
+		return
+	}
+	if c.sc.Variant == "log" {
+		c.checkLogs(hung)
+		return
+	}
 
 	// ---- termination (C15: the limit never prevents completion; all: a run must end)
 	if hung {
